@@ -8,8 +8,11 @@ package plugin
 import (
 	"errors"
 	"math"
+	"net"
 	"net/netip"
+	"reflect"
 	"testing"
+	"testing/synctest"
 	"time"
 
 	"github.com/jsimonetti/rtnetlink"
@@ -127,7 +130,11 @@ func TestVF_Plugin(t *testing.T) {
 			case "c15":
 				res = vfC15(inp)
 			case "c16":
-				res = vfC16(inp)
+				if vfBool(inp, "prepare", false) {
+					res = vfC16Prepared(t, inp)
+				} else {
+					res = vfC16(inp)
+				}
 			}
 		}()
 		rec.raw(map[string]any{"kind": kind, "id": vfStr(v, "id", ""), "in": inp, "out": res})
@@ -180,10 +187,13 @@ func vfC13(in map[string]any) map[string]any {
 
 func vfC14(in map[string]any) map[string]any {
 	fail := vfBool(in, "fail", false)
-	var static []netip.Addr
+	// the configured list lives in a slice with spare capacity (as a parser that sizes it generously would leave it):
+	// building the option must not write into it
+	static := make([]netip.Addr, 0, len(vfList(in, "static"))+3)
 	for _, x := range vfList(in, "static") {
 		static = append(static, netip.MustParseAddr(vfStr(x.(map[string]any), "addr", "")))
 	}
+	before := append([]netip.Addr(nil), static...)
 	r := &RDNSS{Auto: true, Lifetime: 1800 * time.Second, Servers: static}
 	ips := vfIPs(vfList(in, "addrs"))
 	r.Addrs = func() ([]system.IP, error) {
@@ -199,6 +209,9 @@ func vfC14(in map[string]any) map[string]any {
 	if err := r.Apply(ra); err != nil {
 		return map[string]any{"err": true, "servers": []any{}}
 	}
+	// built a second time: the same option again, and the configured list untouched
+	ra2 := &ndp.RouterAdvertisement{}
+	err2 := r.Apply(ra2)
 	servers := []any{}
 	if len(ra.Options) == 1 {
 		if o, ok := ra.Options[0].(*ndp.RecursiveDNSServer); ok && o.Lifetime == 1800*time.Second {
@@ -206,6 +219,13 @@ func vfC14(in map[string]any) map[string]any {
 				servers = append(servers, vfGroups(s))
 			}
 		}
+	}
+	same := len(r.Servers) == len(before)
+	for i := 0; same && i < len(before); i++ {
+		same = r.Servers[i] == before[i]
+	}
+	if err2 != nil || !reflect.DeepEqual(ra.Options, ra2.Options) || !same {
+		servers = append(servers, []any{-1}) // a value no address has: the result is not reproducible
 	}
 	return map[string]any{"err": false, "servers": servers}
 }
@@ -215,7 +235,9 @@ func vfC15(in map[string]any) map[string]any {
 	var routes []system.Route
 	for _, x := range vfList(in, "routes") {
 		m := x.(map[string]any)
-		routes = append(routes, system.Route{Prefix: netip.MustParsePrefix(vfStr(m, "pfx", "")), Index: 1})
+		// the dump may carry the kernel's own preference for a route; the advertised one is the stanza's
+		routes = append(routes, system.Route{Prefix: netip.MustParsePrefix(vfStr(m, "pfx", "")), Index: 1,
+			Preference: []ndp.Preference{ndp.Medium, ndp.Low, ndp.High, ndp.Medium}[len(routes)%4]})
 	}
 	r := &Route{Auto: true, Prefix: netip.MustParsePrefix("::/0"), Preference: ndp.High, Lifetime: vfValid}
 	r.Routes = func() ([]system.Route, error) {
@@ -244,6 +266,75 @@ func vfC15(in map[string]any) map[string]any {
 		nets = append(nets, map[string]any{"h": vfGroups(ri.Prefix), "bits": int(ri.PrefixLength)})
 	}
 	return map[string]any{"err": false, "nets": nets, "uniform": uniform}
+}
+
+// vfC16Prepared: the same count-down, but with the clock the plugins install themselves (Prepare, as Advertiser.Run
+// calls it at every (re)initialisation of the interface), under virtual time. "reads" are offsets from the epoch
+// (whole units), "reprepare" the read indices before which Prepare runs again: the deadline stays where it was.
+func vfC16Prepared(t *testing.T, in map[string]any) map[string]any {
+	unit := time.Second
+	if vfStr(in, "unit", "s") == "ns" {
+		unit = time.Nanosecond
+	}
+	var lts, ncalls []any
+	synctest.Test(t, func(t *testing.T) {
+		// epoch = now + in.epoch (the reads are absolute in the same scale, as in vfC16)
+		base := time.Now()
+		at := func(x int) time.Time { return base.Add(time.Duration(x) * unit) }
+		dep := vfBool(in, "deprecated", true)
+		p := &Prefix{Prefix: netip.MustParsePrefix("2001:db8::/64"), OnLink: true, Autonomous: true,
+			ValidLifetime: time.Duration(vfInt(in, "valid", 0)) * unit, PreferredLifetime: time.Duration(vfInt(in, "pref", 0)) * unit,
+			Deprecated: dep, Epoch: at(vfInt(in, "epoch", 0))}
+		r := &Route{Prefix: netip.MustParsePrefix("2001:db8:1::/48"), Preference: ndp.Medium,
+			Lifetime: time.Duration(vfInt(in, "rl", 0)) * unit, Deprecated: dep, Epoch: at(vfInt(in, "epoch", 0))}
+		ifi := &net.Interface{Name: "vf0", Index: 7}
+		_ = p.Prepare(ifi)
+		_ = r.Prepare(ifi)
+		again := map[int]bool{}
+		for _, x := range vfList(in, "reprepare") {
+			again[vfNum(x)] = true
+		}
+		for i, x := range vfList(in, "reads") {
+			if d := at(vfNum(x)).Sub(time.Now()); d > 0 {
+				time.Sleep(d)
+			}
+			if again[i] {
+				_ = p.Prepare(ifi)
+				_ = r.Prepare(ifi)
+			}
+			ra := &ndp.RouterAdvertisement{}
+			_ = p.Apply(ra)
+			_ = r.Apply(ra)
+			row := []any{-1, -1, -1}
+			for _, o := range ra.Options {
+				switch o := o.(type) {
+				case *ndp.PrefixInformation:
+					row[0], row[1] = int(o.ValidLifetime/unit), int(o.PreferredLifetime/unit)
+					if o.ValidLifetime%unit != 0 || o.PreferredLifetime%unit != 0 {
+						row[0] = -2
+					}
+				case *ndp.RouteInformation:
+					row[2] = int(o.RouteLifetime / unit)
+				}
+			}
+			lts = append(lts, row)
+			ncalls = append(ncalls, []any{1, 1})
+		}
+	})
+	return map[string]any{"lifetimes": lts, "calls": ncalls}
+}
+
+func vfNum(x any) int {
+	switch n := x.(type) {
+	case interface{ Int64() (int64, error) }:
+		v, _ := n.Int64()
+		return int(v)
+	case float64:
+		return int(n)
+	case int:
+		return n
+	}
+	return 0
 }
 
 func vfC16(in map[string]any) map[string]any {
